@@ -72,11 +72,27 @@ DmClauses(ev) ==
 MneClauses(ev) ==
   LET x == MneExpect(ev.i)  g == ev.got IN
   << Cl("data", g.meas = x.meas), Cl("event", g.event = x.event), Cl("name", g.name = x.name),
-     Cl("time", g.time = x.time) >>
+     Cl("time", g.time = x.time), Cl("descriptors", g.descs = x.descs) >>
+
+\* design matrix on the volume grid: TLC recomputes the exact columns; the logged values are the library's
+\* floats rounded to 4 decimals, compared after scaling numerator and denominator into 32-bit range
+AbsI(x) == IF x < 0 THEN 0 - x ELSE x
+HrfClauses(ev) ==
+  LET x == HrfExpect(ev.i)  g == ev.got IN
+  << Cl("enabled", \A c \in 1..Len(x.den) : x.den[c] > 0),
+     Cl("ncols", Len(g.cols) = Len(x.num) /\ g.dof = x.dof /\ g.masklen = Len(x.num)),
+     Cl("values", \A c \in 1..Len(x.num) :
+            LET q == x.den[c] \div 20000 + 1  d == x.den[c] \div q IN
+            \A j \in 1..ev.i.nvols :
+               AbsI((x.num[c][j] \div q) * 10000 - g.cols[c][j] * d) <= 5 * d + 10000) >>
+DfClauses(ev) == << Cl("enabled", ev.i.nr >= 1 /\ Range(ev.i.order) = 1..Len(ev.i.order)),
+                    Cl("rows", ev.got = DfExpect(ev.i)) >>
 
 Clauses(ev) == CASE ev.k = "bids" -> BidsClauses(ev)
                  [] ev.k = "meadows" -> MeadowsClauses(ev)
                  [] ev.k = "layout" -> LayoutClauses(ev)
+                 [] ev.k = "hrf" -> HrfClauses(ev)
+                 [] ev.k = "df" -> DfClauses(ev)
                  [] ev.k = "spm" -> SpmClauses(ev)
                  [] ev.k = "dm" -> DmClauses(ev)
                  [] ev.k = "mne" -> MneClauses(ev)
